@@ -13,6 +13,9 @@ Inductive case :=
     (* var.initial of the single declarator of the statement prefix ++ expr (prefix ends with the equals sign) *)
 | CParamStmt (name expr : str) (out : option str)
     (* var.initial after the statement PARAMETER (name = expr) *)
+| CSelector (pre sel post : str) (out : option str)
+    (* the kind / length selector sel of the statement pre ++ sel ++ post (a declaration, or a typed FUNCTION
+       statement whose prefix is parsed with the line's literal table), as stored in kind / strlen *)
 | CEscape (x out : str)                       (* the e filter of FORD's Jinja environment *)
 | CEscapeText (x out : str)                   (* ford.sourceform._esc *)
 | CView (x text : str) (ntags : nat)          (* an HTML parser's reading of the fragment x *)
@@ -49,6 +52,16 @@ Definition model_param (name expr : str) : option str :=
   | None => None
   end.
 
+(* parse_type: white space removed from the parenthesised selectors, literals put back afterwards
+   (_restore_strings, NBSP substitution included); pre and post carry no literals *)
+Definition model_selector (pre sel post : str) : option str :=
+  match mask (pre ++ sel ++ post) with
+  | Some (m, strs) =>
+      let msel := firstn (length m - length pre - length post) (skipn (length pre) m) in
+      unmask_in (nbsp_sub nb) strs (remove_spaces msel)
+  | None => None
+  end.
+
 Definition opt_str_eqb := opt_eqb str_eqb.
 
 Definition judge (k : case) : nat :=
@@ -66,6 +79,12 @@ Definition judge (k : case) : nat :=
       verdict (negb (opt_str_eqb (model_param name expr) out))
               (match out with
                | Some o => negb (str_eqb (squash (un_nbsp nb o)) (squash expr))
+               | None => true
+               end) 0
+  | CSelector pre sel post out =>
+      verdict (negb (opt_str_eqb (model_selector pre sel post) out))
+              (match out with
+               | Some o => negb (str_eqb (squash (un_nbsp nb o)) (squash sel))
                | None => true
                end) 0
   | CEscape x out =>
